@@ -130,7 +130,7 @@ Definition lex_step (st : lstate) (buf : bytes) (p : nat) : outcome :=
     Cont (if is SSTART then SDASH else if is SDASH then SCOMMENTSTART else SCOMMENT) w p1
   else if is SSTART && ((ch =? 43) || (ch =? 37) || (ch =? 42) || (ch =? 47)) then Stop SOPERATOR w p1
   else if is SSTART && ((ch =? 62) || (ch =? 60)) then Cont SOPERATORSTART w p1
-  else if is_space ch then (if is SSTART || is SWHITESPACE then Cont SWHITESPACE w p1 else Stop st buf p)
+  else if is_space ch && negb (is SSTRING_D_ESCAPE || is SSTRING_S_ESCAPE) then (if is SSTART || is SWHITESPACE then Cont SWHITESPACE w p1 else Stop st buf p)
   else if is_digit_r ch && (is SNUMBER || is SSTART) then Cont SNUMBER w p1
   else if is_letter_r ch && is SSTART then Cont SIDENTIFIER w p1
   else if (is_digit_r ch || is_letter_r ch) && is SIDENTIFIER then Cont SIDENTIFIER w p1
